@@ -8,9 +8,9 @@ SPEC = {
         "C13_atomic_durable", "C13_quiescent_after_crash", "C13_hypotheses_reachable", "C13_order", "C13_order_mkdir",
         "C13_immutable", "C13_immutable_after_upload", "C13_progress_guarded", "C13_progress_of_pos",
         "C13_F1_no_progress_as_found", "C13_F1_empty_data_never_returns", "C13_F1_immutable_empty_upload_hangs",
-        "C13_confined", "C13_dot_key_escapes", "C13_F4_reupload_after_killed_upload_not_durable",
+        "C13_confined", "C13_dot_key_rejected", "C13_F4_reupload_after_killed_upload_not_durable",
         "writefile_order", "mkdir_order", "fsyncandclose", "mkdirall", "upload_branches", "fetch_branches",
-        "discard_branches", "compare_loop", "compare_buf_known", "immutable_ioctl",
+        "discard_branches", "localize_helper", "compare_loop", "compare_buf_positive", "immutable_ioctl",
     ],
     "search_budget_s": 150,
     "design_ref": "DESIGN.md §8 C13, §9 F1, F4",
@@ -24,17 +24,18 @@ SPEC = {
         "order fsync(file) < rename < fsync(parent) and mkdir < fsync(new) < fsync(parent) as contiguous blocks "
         "(C13_order, C13_order_mkdir), derived from Go's LIFO defer over the source order of WriteFile/Mkdir; immutable "
         "re-upload: same bytes nil, different bytes error, nothing changed, for every content, exactly under the "
-        "condition that compareFile's read buffer is never empty (C13_immutable; its failure for the code as found is "
-        "proved as C13_F1_*); accepted keys are lists of plain names, rejected keys issue no system call, every path "
-        "named by Upload/Fetch/Discard lies in the backend directory for every accepted key except \".\" (C13_confined; "
-        "C13_dot_key_escapes)."
+        "condition that compareFile's read buffer is never empty (C13_immutable; its failure for the code before commit "
+        "1e3891a is proved as C13_F1_*); accepted keys are lists of plain names, rejected keys issue no system call, every path "
+        "named by Upload/Fetch/Discard lies in the backend directory for every accepted key; \".\" is rejected by the "
+        "helper localize (C13_confined, C13_dot_key_rejected)."
     ),
     "level_note": (
         "partial: (1) C13_atomic_durable assumes a quiescent pre-state (everything earlier is on disk: true after a reboot "
         "and after completed uploads); from a state left by a KILLED process a returned upload need not be durable "
         "(C13_F4_reupload_after_killed_upload_not_durable, candidate finding F4). (2) C13_immutable needs the read "
-        "buffer of compareFile to be non-empty; the code as found violates it for empty data (F1). (3) C13_confined "
-        "excludes the key \".\" (F8) and is lexical: symbolic links planted inside the directory are followed. The model "
+        "buffer of compareFile to be non-empty: true of the current source (Tie.C13.compare_buf_positive; it was not before "
+        "commit 1e3891a, finding F1, kept as the negative lemmas C13_F1_*). (3) C13_confined is lexical: symbolic links "
+        "planted inside the directory are followed (the key \".\", finding F8, is refused since commit 9a1f05e). The model "
         "is tied to the source by regenerated outlines (Tie.C13) and by strace: the real system calls of the real "
         "LocalBackend must equal uploadTrace/fetchTrace/discardTrace call by call, and the driver computes the crash "
         "states of every accepted upload with the same crash/object definitions the theorems use. That the kernel "
